@@ -240,7 +240,9 @@ void runCase(verif::Run& run, const std::vector<Tree>& trees, const CaseId& id, 
         case W_MAXABS: ext = typename Measure_<T>::MaxAbs(sub, opnd); m = ext; isExt = true; break;
         case W_DELAY1: case W_DELAY2: m = typename Measure_<T>::Delay(sub, opnd, tau); break;
     }
-    VarHist vh; for (int k = 0; k < 3; ++k) { vh.v0[k] = vh.v1[k] = 0; } vh.tSet = Infinity;
+    // step driver: an (unjudged) integral of a fast sinusoid makes the error-controlled integrators take a few dozen steps, so that
+    // the step-memory measures see a rich, integrator-specific step grid instead of two or three steps
+    Measure::Integrate driver(sub, Measure::Sinusoid(sub, 1.0, 25.0, 0.3), Measure::Constant(sub, 0.0));
     // per component variable histories (component c of slot k)
     VarHist vhc[3]; for (int c = 0; c < 3; ++c) { vhc[c].tSet = Infinity; for (int k = 0; k < 3; ++k) { vhc[c].v0[k] = PP->v0[k][c]; vhc[c].v1[k] = PP->v0[k][c]; } }
     auto F = [&](int c, double t) { return cfVal(ex.cf[c], t, vhc[c]); };
